@@ -108,7 +108,11 @@ THEOREMS = {
          'C08_orientation_restore_delaunay', 'C08_orientation_history',
          # Properties/C08_refine.v: refine / mesh_polygon through the trace of elementary steps
          'C08_refine_trace_erasure', 'C08_add_point_err_unchanged_struct', 'C08_refine_region_area', 'C08_refine_region_cover',
-         'C08_refine_orientation', 'C08_refine_geo', 'C08_mesh_polygon_region'],
+         'C08_refine_orientation', 'C08_refine_geo', 'C08_mesh_polygon_region',
+         # Properties/C08_init.v: from_polygon establishes the link-geometry invariant (B1 every instance; B2 reals, Jordan outline)
+         'C08_init_def_EM', 'C08_init_def_jordan_le1', 'C08_init_EM_reversed', 'C08_init_EM_at_most_two', 'C08_init_EM_of_reversed',
+         'C08_init_mark_neighbourhouds_links', 'C08_init_links_of_EM', 'C08_init_EM_of_tiling', 'C08_init_common_point',
+         'C08_initial_GEO', 'C08_initial_INV', 'C08_mesh_polygon_region_from_polygon', 'C08_init_jordan_parallelogram', 'C08_init_EM_is_needed'],
  'C09': ['C09_from_polygon_bounded', 'C09_restore_delaunay_bounded', 'C09_edge_add_no_panic', 'C09_panic_sites_flip_diagonal',
          'C09_panic_sites_split_edge', 'C09_panic_sites_split_triangle', 'C09_panic_sites_restore_delaunay', 'C09_panic_sites_add_point',
          'C09_panic_sites_refine', 'C09_wf_push', 'C09_wf_invalidate', 'C09_wf_mark_as_neighbours', 'C09_wf_flip_diagonal',
